@@ -19,3 +19,7 @@ def run(tier, seed, verdict):
         ["floating-point rounding for large values is outside the generated domain",
          "tag / multi-tag read paths are covered by the tagging check (C08)"],
         ("SetCoef:ok", "SetOrigin:ok", "Assign:ok", "WriteAll:ok"))
+
+
+def replay(path):
+    return ar.replay_file(path, "C15")
